@@ -300,6 +300,95 @@ def run(rep: vk.Report):
             for j, vn in enumerate(V):
                 nums.append(f"({te}, {ser.s(vn)}, {common.pts_term(pt)}, {common.pts_term(ppts)}, [{ser.q(sign * float(jac[j]))}])")
                 nmeta.append({"what": f"jac[{vn}]", "constraint": repr(c)[:300], "point": pt, "sense": sense, "jac": float(jac[j])})
+    # ---- a model written relation by relation (rows of A x <= b with a common sense and right-hand side, look-alike vector
+    # reductions, true duplicates): EVERY written relation must be represented among the dicts the solver receives - for each
+    # constraint there is a dict of its type whose fun is +/-(lhs - rhs) on the probe points and whose jac is its derivative
+    from optyx import VectorVariable as _VVr
+    handed = handed_bad = 0
+    for trial in range(24 if rep.tier == "quick" else 600):
+        r = random.Random(rng.random())
+        nrow = r.randint(2, 4)
+        xv = _VVr(r.choice(["x", "q", "v"]), r.randint(2, 4))
+        nx = xv.size
+        fam = r.choice(["rows_common_rhs", "rows_common_rhs", "sums_of_views", "scaled_rows", "with_duplicates", "mixed_sense", "quadratic_forms"])
+        A = np.array([[float(r.choice([1, 2, -1, 3, 0.5])) + 0.25 * ((i + j) % 3) for j in range(nx)] for i in range(nrow)])
+        rel = []          # (constraint, type, numpy fun, numpy jac)
+        if fam in ("rows_common_rhs", "with_duplicates"):
+            sense = r.choice(["<=", ">="])
+            for i in range(nrow):
+                rel.append((apply_sense(A[i] @ xv, sense, 1.0), "ineq", (lambda x, i=i, sg=(-1.0 if sense == "<=" else 1.0): sg * (A[i] @ x - 1.0)),
+                            (lambda x, i=i, sg=(-1.0 if sense == "<=" else 1.0): sg * A[i])))
+            if fam == "with_duplicates":
+                rel.append(rel[0]); rel.append((apply_sense(A[0] @ xv, sense, 1.0),) + rel[0][1:])
+        elif fam == "sums_of_views":
+            for a_, b_ in [(0, nx), (0, nx - 1), (1, nx)]:
+                m = np.zeros(nx); m[a_:b_] = 1.0
+                rel.append((xv[a_:b_].sum() <= 2.0, "ineq", (lambda x, m=m: 2.0 - m @ x), (lambda x, m=m: -m)))
+            m2 = np.zeros(nx); m2[0:nx:2] = 1.0
+            rel.append((xv[0:nx:2].sum() <= 2.0, "ineq", (lambda x, m=m2: 2.0 - m @ x), (lambda x, m=m2: -m)))
+        elif fam == "scaled_rows":
+            for i in range(nrow):
+                rel.append(((A[i] @ xv) * 2.0 >= -3.0, "ineq", (lambda x, i=i: 2.0 * (A[i] @ x) + 3.0), (lambda x, i=i: 2.0 * A[i])))
+        elif fam == "mixed_sense":
+            for i in range(nrow):
+                sense = ["<=", ">=", "=="][i % 3]
+                sg = -1.0 if sense == "<=" else 1.0
+                rel.append((apply_sense(A[i] @ xv, sense, 1.0), "eq" if sense == "==" else "ineq", (lambda x, i=i, sg=sg: sg * (A[i] @ x - 1.0)),
+                            (lambda x, i=i, sg=sg: sg * A[i])))
+        else:
+            for i in range(nrow):
+                Qi = np.diag(np.abs(A[i]) + 1.0)
+                rel.append((xv.dot(Qi @ xv) <= 9.0, "ineq", (lambda x, Qi=Qi: 9.0 - x @ Qi @ x), (lambda x, Qi=Qi: -2.0 * (Qi @ x))))
+        P = Problem().minimize(xv.dot(xv))
+        if r.random() < 0.5:
+            P.subject_to([c_ for c_, *_ in rel])
+        else:
+            for c_, *_ in rel:
+                P.subject_to(c_)
+        with stubs.Seams(minimize_script=[lambda call: stubs.mres(x=call["x0"], fun=0.0)] * 2) as S, warnings.catch_warnings():
+            warnings.simplefilter("ignore")
+            try:
+                P.solve(method=r.choice(["SLSQP", "trust-constr"]))
+            except Exception:
+                continue
+        if not S.minimize_calls:
+            continue
+        dicts = [d_ for d_ in (S.minimize_calls[0]["constraints"] or ()) if isinstance(d_, dict)]
+        if not dicts:
+            continue          # trust-constr may receive constraint objects in another form: only dict hand-overs are compared here
+        order = [v.name for v in P.variables]
+        perm = [order.index(f"{xv.name}[{j}]") for j in range(nx)]
+        pts = [np.array([r.choice(common.NICE) for _ in range(nx)]) for _ in range(3)]
+        for ci, (c_, typ, fnp, jnp_) in enumerate(rel):
+            handed += 1
+            found = False
+            for d_ in dicts:
+                if d_.get("type") != typ:
+                    continue
+                ok = True
+                for x_ in pts:
+                    full = np.zeros(len(order)); full[perm] = x_
+                    with np.errstate(all="ignore"):
+                        try:
+                            fv = float(d_["fun"](full)); jv = np.asarray(d_["jac"](full), dtype=float).ravel()[perm]
+                        except Exception:
+                            ok = False; break
+                    want_f, want_j = float(fnp(x_)), np.asarray(jnp_(x_), dtype=float)
+                    if typ == "eq":
+                        ok = (abs(fv - want_f) <= 1e-9 * (1 + abs(want_f)) and np.allclose(jv, want_j, rtol=1e-9, atol=1e-9)) or \
+                             (abs(fv + want_f) <= 1e-9 * (1 + abs(want_f)) and np.allclose(jv, -want_j, rtol=1e-9, atol=1e-9))
+                    else:
+                        ok = abs(fv - want_f) <= 1e-9 * (1 + abs(want_f)) and np.allclose(jv, want_j, rtol=1e-9, atol=1e-9)
+                    if not ok:
+                        break
+                if ok:
+                    found = True
+                    break
+            if not found:
+                handed_bad += 1
+                rep.violation({"kind": "handover", "obligation": "every written relation is represented among the constraint dicts handed to the solver (fun = +/-(lhs - rhs), jac its derivative)",
+                               "witness": {"family": fam, "vector": [xv.name, nx], "A": A.tolist(), "constraint_index": ci, "constraint": repr(c_)[:200],
+                                           "n_written": len(rel), "n_dicts": len(dicts), "probe_points": [p_.tolist() for p_ in pts]}}, concrete=True)
     # ---- right-hand sides as users hold them (Python numbers, NumPy scalars of every width, 0-d arrays), probed at points whose
     # distance from the bound is far below single precision: the relation is evaluated in double precision whatever the rhs type
     from optyx import Variable as _Vr
@@ -353,6 +442,8 @@ def run(rep: vk.Report):
     cov["operand_kind_histogram"] = kinds_hist
     cov["matrix_cases"] = mat_cases
     cov["rhs_number_type_probes"] = rhs_probe
+    cov["written_relations_looked_up_among_solver_dicts"] = handed
+    cov["written_relations_not_handed_over"] = handed_bad
     cov["rhs_number_type_disagreements"] = rhs_bad
     cov["numeric_probes"] = len(nums)
     cov["parameter_updates_after_build"] = param_updates
